@@ -60,4 +60,9 @@ CONFIG = {
             "the loader wrapper injects faults deterministically (Open error, reader failing after one byte)",
         ],
     },
+    'C01': {
+        "quick": {'checks': 12000, 'shards': 4, 'timeout': 900},
+        "thorough": {'checks': 600000, 'shards': 14, 'timeout': 3600, 'shrinktime': '60s'},
+        "assumptions": ["Renderer values (writeJson, includeIfExists' hidden bool) are kept out of render sites", 'the custom escaper is chunk-homomorphic (byte-wise)', 'safeJs is compared against text/template.JSEscape'],
+    },
 }
